@@ -29,16 +29,16 @@ type p2ScenParams struct {
 
 func init() {
 	register(&c01{base{
-		id:    "C01",
-		level: lvlExploration,
-		rule: "each case: seeded file set (1..12 files; sizes 1 byte..>16 KiB around multiples of the slice size; random, all-zero, short-period, duplicate-slice and mixed content; names in sub-directories) -> real par2.Create (random goroutine count) -> 0..4 damage operations on a segment model (delete, overwrite, flip, insert, cut, truncate, append, swap, copy-under-other-name) -> loss of a random subset of recovery files -> real par2.Repair on the directory. The model knows which protected slices still lie wholly inside a surviving segment (witnesses): k = slices without witness; blocks = distinct exponents the reference reader finds in the remaining volume files. Success (and byte-identical files) is demanded iff k <= blocks, except when the format-forced system (lowest available exponents x missing slices) is singular by reference elimination, where an error is demanded. A nil error always demands identical files. A key is (content class, slice size, #files, #ops, k, blocks, demanded?); non-trivial = at least one damage op or lost volume",
+		id:          "C01",
+		level:       lvlExploration,
+		rule:        "each case: seeded file set (1..12 files; sizes 1 byte..>16 KiB around multiples of the slice size; random, all-zero, short-period, duplicate-slice and mixed content; names in sub-directories) -> real par2.Create (random goroutine count) -> 0..4 damage operations on a segment model (delete, overwrite, flip, insert, cut, truncate, append, swap, copy-under-other-name) -> loss of a random subset of recovery files -> real par2.Repair on the directory. The model knows which protected slices still lie wholly inside a surviving segment (witnesses): k = slices without witness; blocks = distinct exponents the reference reader finds in the remaining volume files. Success (and byte-identical files) is demanded iff k <= blocks, except when the format-forced system (lowest available exponents x missing slices) is singular by reference elimination, where an error is demanded. A nil error always demands identical files. A key is (content class, slice size, #files, #ops, k, blocks, demanded?); non-trivial = at least one damage op or lost volume",
 		assumptions: append([]string{"recovery files are deleted, never corrupted (corruption is C13)", "garbage bytes are non-zero random bytes; only lower bounds are derived from witnesses, upper bounds from a brute-force content finder"}, commonAssumptions...),
 		opts:        core.WorkerOpts{CrashIsViolation: true, WallSeconds: 2400},
 	}})
 	register(&c03{base{
-		id:    "C03",
-		level: lvlExploration,
-		rule: "same scenario generator as C01 with emphasis on damage that leaves every slice findable while files are wrong (insertion at/off slice boundaries, swapped files, lost trailing zeros, appended garbage) and every subset of volume files deleted; real par2.Verify is judged against the model: RepairNeeded()==false iff every file is byte-identical; usable+unusable = total; usable <= slices whose content a brute-force finder locates anywhere in the surviving protected files; usable >= slices of byte-identical files; usable recovery blocks = distinct exponents read by the reference reader from the intact volume files; RepairPossible() == (unusable <= usable blocks). A key is (content, slice size, #files, op kinds, volumes deleted)",
+		id:          "C03",
+		level:       lvlExploration,
+		rule:        "same scenario generator as C01 with emphasis on damage that leaves every slice findable while files are wrong (insertion at/off slice boundaries, swapped files, lost trailing zeros, appended garbage) and every subset of volume files deleted; real par2.Verify is judged against the model: RepairNeeded()==false iff every file is byte-identical; usable+unusable = total; usable <= slices whose content a brute-force finder locates anywhere in the surviving protected files; usable >= slices of byte-identical files; usable recovery blocks = distinct exponents read by the reference reader from the intact volume files; RepairPossible() == (unusable <= usable blocks). A key is (content, slice size, #files, op kinds, volumes deleted)",
 		assumptions: commonAssumptions,
 		opts:        core.WorkerOpts{CrashIsViolation: true, WallSeconds: 2400},
 	}})
@@ -65,6 +65,12 @@ func p2Cases(id, tier string, seed int64, n int) []core.Case {
 			if i%100 == 9 {
 				kind = "many-slices"
 			}
+		case 1:
+			if id == "C03" && i%20 == 1 {
+				// a recovery file with one damaged packet: Verify either
+				// refuses or must still count every intact block
+				kind = "corrupt-volume"
+			}
 		}
 		cs = append(cs, core.MkCase(fmt.Sprintf("%s-%d", kind, i), p2ScenParams{Seed: r.Int63(), Kind: kind}))
 	}
@@ -85,19 +91,20 @@ func (c *c03) Cases(tier string, seed int64) []core.Case {
 
 // p2Scenario is a built scenario ready for Verify/Repair.
 type p2Scenario struct {
-	env        *p2env
-	g          int
-	ops        []scen.Op
-	volsLost   int
-	volsTotal  int
-	wit        map[scen.SliceRef]bool
-	findable   map[scen.SliceRef]bool
-	skip       map[scen.SliceRef]bool
-	exps       []int
-	total      int
-	identical  []bool
-	nIdentical int
-	identSlices int
+	env           *p2env
+	g             int
+	ops           []scen.Op
+	volsLost      int
+	volsTotal     int
+	wit           map[scen.SliceRef]bool
+	findable      map[scen.SliceRef]bool
+	skip          map[scen.SliceRef]bool
+	exps          []int
+	total         int
+	corruptVolume string
+	identical     []bool
+	nIdentical    int
+	identSlices   int
 }
 
 func fixedSet(name string) (scen.Set, func(*scen.State, *rand.Rand) []scen.Op, string) {
@@ -271,6 +278,18 @@ func buildP2Scenario(r *core.R, p p2ScenParams) *p2Scenario {
 			os.Remove(v)
 			sc.volsLost++
 		}
+	case p.Kind == "corrupt-volume":
+		if len(vols) > 0 {
+			v := vols[rng.Intn(len(vols))]
+			b, _ := os.ReadFile(v)
+			if len(b) > 0 {
+				// flip one bit somewhere in the file (any packet: creator, main,
+				// description, checksum or recovery)
+				b[rng.Intn(len(b))] ^= 1 << uint(rng.Intn(8))
+				os.WriteFile(v, b, 0644)
+				sc.corruptVolume = filepath.Base(v)
+			}
+		}
 	case p.Kind == "at-capacity":
 		// keep exactly k blocks if possible (volumes hold 1,2,4,.. blocks)
 		k := st.Set.TotalSlices() - len(st.Witnessed())
@@ -359,6 +378,9 @@ func (sc *p2Scenario) describe() map[string]interface{} {
 	m["findable"] = len(sc.findable)
 	m["skip_on_hit"] = len(sc.skip)
 	m["goroutines"] = sc.g
+	if sc.corruptVolume != "" {
+		m["corrupt_volume"] = sc.corruptVolume
+	}
 	return m
 }
 
@@ -472,8 +494,17 @@ func (c *c03) Run(cs core.Case) core.Result {
 	}
 	r.Count("verifies", 1)
 	if err != nil {
+		if sc.corruptVolume != "" {
+			// refusing a damaged recovery file is legitimate (C13 judges that side)
+			r.Count("verify_refused_corrupt_volume", 1)
+			r.Key("corrupt-volume-refused|%s", sc.opKinds())
+			return r.Done()
+		}
 		r.Violate("verify-error-on-intact-archive", "Verify returned %v although index and remaining recovery files are untouched; %v", err, sc.describe())
 		return r.Done()
+	}
+	if sc.corruptVolume != "" {
+		r.Count("verify_result_with_corrupt_volume", 1)
 	}
 	sh := res.ShardCounts
 	desc := func() string { return fmt.Sprintf("counts=%+v; %v", sh, sc.describe()) }
